@@ -414,6 +414,21 @@ def _pack_frame(lf, e, dbl, magic=1993, version=b"GMX_trn_file"):
     return b
 
 
+def _quiet_nans(line):
+    """a float32 signalling NaN read by struct.unpack becomes a quiet NaN on its way through a Python float
+    (the payload's top bit is set by the hardware conversion); IEEE decoding is outside the model, which carries
+    the raw field bytes — so 8-digit hex fields that are NaN patterns are compared with the quiet bit set.
+    Only random bytes of the malformed stream can contain such patterns."""
+    out = []
+    for t in line.split():
+        if len(t) == 8 and all(c in "0123456789abcdef" for c in t):
+            x = int(t, 16)
+            if (x & 0x7F800000) == 0x7F800000 and (x & 0x007FFFFF):
+                t = f"{x | 0x00400000:08x}"
+        out.append(t)
+    return " ".join(out)
+
+
 def _field(v, dbl):
     return struct.pack(">d" if dbl else ">f", v).hex()
 
@@ -618,7 +633,7 @@ def _run_trr(ctx):
         return
     out = ctx.driver(lines)
     for (canon, replay, fn), ans in zip(checks, out):
-        if ans != canon:
+        if ans != canon and _quiet_nans(ans) != _quiet_nans(canon):
             ctx.disagree({"fn": fn, **{k: v for k, v in replay.items() if k != "lframes"}}, canon, ans)
 
 
